@@ -28,21 +28,23 @@ import (
 )
 
 type offIn struct {
-	Seed      int64  `json:"seed"`
-	Start     int64  `json:"start"`
-	Commands  int    `json:"commands"`
-	Idles     []int  `json:"idles"`     // command indices after which the source pauses
-	IdleMs    int    `json:"idle_ms"`
-	Drops     []int  `json:"drops"`     // command indices after which (plus DropSkew bytes) the connection is dropped
-	DropSkew  int    `json:"drop_skew"` // drop this many bytes INTO the next command (0 = at the boundary)
-	Refuse    int    `json:"refuse"`
-	Frags     []int  `json:"frags"`
-	QuietMs   int    `json:"quiet_ms"`
-	Trace     string `json:"trace"`
-	BudgetMs  int    `json:"budget_ms"`
-	AuthType  string `json:"auth_type"` // "" = auth; C19 also runs with an auth command the servers do not know
-	ResumeAt  int    `json:"resume_at"` // > 0: the target already holds a checkpoint at the end of this command
-	TargetDB  *int   `json:"target_db"` // target.db (default -1); with it the stream carries a SELECT every few commands
+	Seed     int64  `json:"seed"`
+	Start    int64  `json:"start"`
+	Commands int    `json:"commands"`
+	Idles    []int  `json:"idles"` // command indices after which the source pauses
+	IdleMs   int    `json:"idle_ms"`
+	Drops    []int  `json:"drops"`     // command indices after which (plus DropSkew bytes) the connection is dropped
+	DropSkew int    `json:"drop_skew"` // drop this many bytes INTO the next command (0 = at the boundary)
+	Refuse   int    `json:"refuse"`
+	Frags    []int  `json:"frags"`
+	QuietMs  int    `json:"quiet_ms"`
+	Trace    string `json:"trace"`
+	BudgetMs int    `json:"budget_ms"`
+	AuthType string `json:"auth_type"` // "" = auth; C19 also runs with an auth command the servers do not know
+	ResumeAt int    `json:"resume_at"` // > 0: the target already holds a checkpoint at the end of this command
+	ResumeDb int    `json:"resume_db"` // the database the stored checkpoint lives in (and the source's stream works in); with it the source stays
+	//                                     silent for 1.2 s after +CONTINUE, so that the tool's opening SELECT is flushed on its own
+	TargetDB *int `json:"target_db"` // target.db (default -1); with it the stream carries a SELECT every few commands
 }
 
 func offRun(in []byte) (interface{}, error) {
@@ -80,7 +82,7 @@ func offRun(in []byte) (interface{}, error) {
 		stream = append(stream, b...)
 		ends = append(ends, cfg.Start+int64(len(stream)))
 	}
-	add(respCmd("SELECT", "0"))
+	add(respCmd("SELECT", strconv.Itoa(cfg.ResumeDb)))
 	var selectEnds []int
 	for i := 0; i < cfg.Commands; i++ {
 		if rnd.Intn(6) == 0 {
@@ -89,7 +91,7 @@ func offRun(in []byte) (interface{}, error) {
 		if rnd.Intn(7) == 0 {
 			add(respCmd("PING"))
 		}
-		if rnd.Intn(9) == 0 || (cfg.TargetDB != nil && i%3 == 1) {
+		if (cfg.ResumeDb == 0 && rnd.Intn(9) == 0) || (cfg.TargetDB != nil && i%3 == 1) {
 			db := rnd.Intn(2)
 			add(respCmd("SELECT", strconv.Itoa(db)))
 			if cfg.TargetDB != nil && db != *cfg.TargetDB {
@@ -129,7 +131,7 @@ func offRun(in []byte) (interface{}, error) {
 	}
 	runid := "FFeeddccbbaa00112233445566778899aabbCCDD" // (mixed case: an id is an opaque token)
 	src := fakesrc.New(fakesrc.Script{RunID: runid, Offset: cfg.Start, RDB: rdbBytes, Stream: stream, Frags: cfg.Frags, PauseUs: 200,
-		DropAt: dropAt, RefuseNext: cfg.Refuse, IdleAt: idleAt, IdleMs: cfg.IdleMs}, func(e fakesrc.Event) {
+		DropAt: dropAt, RefuseNext: cfg.Refuse, IdleAt: idleAt, IdleMs: cfg.IdleMs, ContinueDelayMs: map[bool]int{true: 1200}[cfg.ResumeDb != 0]}, func(e fakesrc.Event) {
 		off := e.Off
 		if e.Kind == "ack" && off != 0 || e.Kind == "psync" && off != -1 {
 			off = rel(off)
@@ -236,7 +238,7 @@ func offRun(in []byte) (interface{}, error) {
 	if cfg.ResumeAt > 0 && cfg.ResumeAt < len(ends)-1 {
 		first = cfg.ResumeAt
 		o := ends[cfg.ResumeAt]
-		tgt.Put(0, utils.CheckpointKey, mredis.Entry{Val: rdbref.Value{Kind: "hash", Hash: []rdbref.HF{
+		tgt.Put(cfg.ResumeDb, utils.CheckpointKey, mredis.Entry{Val: rdbref.Value{Kind: "hash", Hash: []rdbref.HF{
 			{Field: []byte(srcAddr + "-" + utils.CheckpointRunId), Value: []byte(runid)},
 			{Field: []byte(srcAddr + "-" + utils.CheckpointVersion), Value: []byte("1")},
 			{Field: []byte(srcAddr + "-" + utils.CheckpointOffset), Value: []byte(strconv.FormatInt(o, 10))}}}})
